@@ -374,7 +374,47 @@ func GenHist(seed uint64, prop, target string) (*Scenario, map[string]int64) {
 		calls = append(calls, c)
 	}
 	sg.sc.Tasks = [][]Call{calls}
+	boundIndentCost(sg.sc)
 	return sg.sc, sg.faults
+}
+
+// boundIndentCost keeps the size of an indented result within what a worker can hold: a document
+// nested d levels deep, indented with a string of l bytes, is d*d*l bytes long (every level's
+// opening and closing line carries its whole indentation) - 2500 levels and a 300-byte indent are
+// gigabytes of legitimate output.  Where the deepest buffer of the scenario makes that exceed
+// 32 MiB the indent of the call is cut down; nothing else about the scenario changes.
+func boundIndentCost(sc *Scenario) {
+	depth := int64(1)
+	for _, b := range sc.Bufs {
+		var d, m int64
+		for _, ch := range b {
+			switch ch {
+			case '[', '{':
+				d++
+				if d > m {
+					m = d
+				}
+			case ']', '}':
+				if d > 0 {
+					d--
+				}
+			}
+		}
+		if m > depth {
+			depth = m
+		}
+	}
+	fix := func(cs []Call) {
+		for i := range cs {
+			for len(cs[i].Indent) > 1 && depth*depth*int64(len(cs[i].Indent)) > 32<<20 {
+				cs[i].Indent = cs[i].Indent[:len(cs[i].Indent)/2]
+			}
+		}
+	}
+	fix(sc.Prelude)
+	for _, t := range sc.Tasks {
+		fix(t)
+	}
 }
 
 // GenConc generates a concurrent scenario (C10): shared read-only inputs and one
@@ -485,6 +525,7 @@ func GenConc(seed uint64, prop, target string) (*Scenario, map[string]int64) {
 		}
 		sg.faults["deep_nesting_before_ordinary_calls"]++
 	}
+	boundIndentCost(sg.sc)
 	return sg.sc, sg.faults
 }
 
